@@ -194,7 +194,10 @@ def del (cfg : Cfg) (r : Route) (c : Cluster) (dm : Bytes) (k : Key) : Cluster :
 /-! ### atomic operations and locks (compositions of get / put / delete / expire) -/
 
 /-- decimal digits of a natural number, as bytes -/
-def natBytes (n : Nat) : Bytes := (Nat.toDigits 10 n).map (fun c => UInt8.ofNat c.toNat)
+def natBytes (n : Nat) : Bytes :=
+  if h : n < 10 then [UInt8.ofNat (48 + n)] else natBytes (n / 10) ++ [UInt8.ofNat (48 + n % 10)]
+termination_by n
+decreasing_by omega
 
 def intBytes (i : Int) : Bytes := if i < 0 then 45 :: natBytes i.natAbs else natBytes i.toNat
 
